@@ -65,9 +65,87 @@ func (c *corpus) measureLean() {
 // world: what the goroutines of one run share read-only: the input byte slices and, as the only shared
 // decoded structures, DecryptInfos obtained by DecryptInit from a private (Reader-decoded) init segment.
 type world struct {
-	c     *corpus
-	bytes [][]byte
-	dis   []*mp4.DecryptInfo // index k-nbytes; built on demand in private worlds
+	c      *corpus
+	bytes  [][]byte
+	dis    []*mp4.DecryptInfo // index k-nbytes; built on demand in private worlds
+	keytab []byte             // key / IV / KID table (see keyMat); pseudo input number len(c.info)
+}
+
+// keyMat: the key material one goroutine hands to the library.  Every slice is a 2-index sub-slice tab[a:b] of the
+// world's key table, so cap > len: behind an 8-byte IV lies the next goroutine's IV, behind a key the next key, behind
+// the last record 64 guard bytes.  The library may read len bytes of each and must not write any byte of the table
+// (an append to an argument with spare capacity lands in the caller's array).
+type keyMat struct {
+	key, iv []byte
+	kid     mp4.UUID
+}
+
+const (
+	ktSlots = 16
+	ktIV8   = 0
+	ktKey   = ktIV8 + 8*ktSlots
+	ktKid   = ktKey + 16*ktSlots
+	ktIV16  = ktKid + 16*ktSlots
+	ktGuard = ktIV16 + 16*ktSlots
+	ktLen   = ktGuard + 64
+)
+
+// ivLen: goroutines 0,1 use an 8-byte IV, 2,3 a 16-byte one, and so on (neighbouring slots of the same kind are in use together).
+func ivLen(t int) int {
+	if (t/2)%2 == 0 {
+		return 8
+	}
+	return 16
+}
+
+// keyClass names everything that determines the key material values of goroutine t.
+func keyClass(t int) string { return fmt.Sprintf("k%div%d", t%3, ivLen(t)) }
+
+func buildKeyTable() []byte {
+	tab := make([]byte, ktLen)
+	for s := 0; s < ktSlots; s++ {
+		copy(tab[ktIV8+8*s:], cryptIV[:8])
+		copy(tab[ktKey+16*s:], goroutineKey(s))
+		copy(tab[ktKid+16*s:], cryptKid)
+		copy(tab[ktIV16+16*s:], cryptIV)
+	}
+	for i := ktGuard; i < ktLen; i++ {
+		tab[i] = byte(0xa5 ^ i)
+	}
+	return tab
+}
+
+// keys returns goroutine t's views of the world's key table.
+func (w *world) keys(t int) keyMat {
+	s := t % ktSlots
+	if s < 0 {
+		s = 0
+	}
+	km := keyMat{key: w.keytab[ktKey+16*s : ktKey+16*s+16], kid: mp4.UUID(w.keytab[ktKid+16*s : ktKid+16*s+16])}
+	if ivLen(t) == 8 {
+		km.iv = w.keytab[ktIV8+8*s : ktIV8+8*s+8]
+	} else {
+		km.iv = w.keytab[ktIV16+16*s : ktIV16+16*s+16]
+	}
+	return km
+}
+
+func (c *corpus) inputName(k int) string {
+	if k == len(c.info) {
+		return "key/IV/KID table (the key material arguments are sub-slices of it)"
+	}
+	if k >= 0 && k < len(c.info) {
+		return c.info[k].name
+	}
+	return "?"
+}
+
+// corrSlot: the slot of the sequential correspondence programs (corpus key; 16-byte IV for even ids, 8-byte for odd ones).
+func corrSlot(id int) int {
+	if id%2 == 1 {
+		return 12
+	}
+	return 6
 }
 
 // goroutineKey: goroutine t of a round uses key t%3 for all its en/decryption (0: the key the corpus was protected
@@ -341,11 +419,41 @@ func diDigest(di *mp4.DecryptInfo) string {
 	return hex.EncodeToString(h.Sum(nil)[:12])
 }
 
+// guarded returns a copy of b with inputGuard guard bytes of spare capacity behind it (cap = len + inputGuard): the
+// inputs are handed to the library the way a caller hands out a range of a bigger buffer.  A write behind len
+// (append to the slice or to a view of its tail) lands in the guard and counts as a change of the input.
+const inputGuard = 32
+
+func guarded(b []byte) []byte {
+	a := make([]byte, len(b)+inputGuard)
+	copy(a, b)
+	out := a[:len(b)]
+	fillGuard(out)
+	return out
+}
+
+func fillGuard(b []byte) {
+	g := b[len(b):cap(b)]
+	for i := range g {
+		g[i] = byte(0x5a + 7*i)
+	}
+}
+
+func guardIntact(b []byte) bool {
+	g := b[len(b):cap(b)]
+	for i := range g {
+		if g[i] != byte(0x5a+7*i) {
+			return false
+		}
+	}
+	return true
+}
+
 // sharedWorld: everything built up front.
 func (c *corpus) sharedWorld() *world {
-	w := &world{c: c, bytes: make([][]byte, c.nbytes), dis: make([]*mp4.DecryptInfo, len(c.info)-c.nbytes)}
+	w := &world{c: c, bytes: make([][]byte, c.nbytes), dis: make([]*mp4.DecryptInfo, len(c.info)-c.nbytes), keytab: buildKeyTable()}
 	for i := 0; i < c.nbytes; i++ {
-		w.bytes[i] = hx.Exact(c.pristine[i])
+		w.bytes[i] = guarded(c.pristine[i])
 	}
 	for k := c.nbytes; k < len(c.info); k++ {
 		w.dis[k-c.nbytes] = c.buildDI(k)
@@ -355,10 +463,10 @@ func (c *corpus) sharedWorld() *world {
 
 // privateWorld: fresh copies of the inputs in `need` only; DecryptInfos are built on first use.
 func (c *corpus) privateWorld(need map[int]bool) *world {
-	w := &world{c: c, bytes: make([][]byte, c.nbytes), dis: make([]*mp4.DecryptInfo, len(c.info)-c.nbytes)}
+	w := &world{c: c, bytes: make([][]byte, c.nbytes), dis: make([]*mp4.DecryptInfo, len(c.info)-c.nbytes), keytab: buildKeyTable()}
 	for k := range need {
 		if k >= 0 && k < c.nbytes {
-			w.bytes[k] = hx.Exact(c.pristine[k])
+			w.bytes[k] = guarded(c.pristine[k])
 		}
 	}
 	return w
@@ -399,7 +507,23 @@ func (w *world) changed(sha bool) []int {
 			w.dis[j] = w.c.buildDI(k)
 		}
 	}
+	if w.keytabChanged(sha) {
+		out = append(out, len(w.c.info))
+	}
 	return out
+}
+
+// keytabChanged: the key table no longer equals its pristine state (restores it).
+func (w *world) keytabChanged(sha bool) bool {
+	if w.keytab == nil {
+		return false
+	}
+	want := buildKeyTable()
+	if !bytes.Equal(w.keytab, want) || (sha && sha256.Sum256(w.keytab) != sha256.Sum256(want)) {
+		copy(w.keytab, want)
+		return true
+	}
+	return false
 }
 
 func (c *corpus) isClear(i int) bool { return c.info[i].role == "full" && !c.info[i].enc }
@@ -575,8 +699,10 @@ func sum(b []byte) string {
 }
 
 // execOp runs one op on the goroutine's objects; inputs are the byte slices "i<k>" refers to.
-func execOp(p op, objs map[int]*object, w *world, cryptKey []byte) (res opResult) {
+func execOp(p op, objs map[int]*object, w *world, km keyMat) (res opResult) {
 	inputs := w.bytes
+	// shadow the package-level key material: everything below hands the goroutine's table views to the library
+	cryptKey, cryptIV, cryptKid := km.key, km.iv, km.kid
 	defer func() {
 		if r := recover(); r != nil {
 			res = opResult{class: "panic"}
@@ -972,7 +1098,7 @@ func finalDigest(objs map[int]*object) (res string) {
 }
 
 // runProgram executes a whole program; between(i) is called before op i (skew / Gosched injection).
-func runProgram(p []op, inputs *world, key []byte, between func(i int)) (results []opResult, final string, objs map[int]*object) {
+func runProgram(p []op, inputs *world, key keyMat, between func(i int)) (results []opResult, final string, objs map[int]*object) {
 	objs = map[int]*object{}
 	for i, o := range p {
 		if between != nil {
